@@ -149,7 +149,7 @@ def blocked_tasks(loop: Optional[asyncio.AbstractEventLoop] = None) -> Set[TaskA
     loop = loop or asyncio.get_running_loop()
     result = asyncio.all_tasks(loop) - runnable_tasks(loop)
     # the current task is not blocked
-    current = asyncio.current_task()
+    current = asyncio.current_task(loop)
     if current:
         result.discard(current)
     assert all(task_is_blocked(task) for task in result)
